@@ -354,20 +354,9 @@ class Parser:
         stream.expect(TOKEN_SLICE_STEP)
         step_token = stream.current
 
-        if not start_token.value:
-            start: Optional[int] = None
-        else:
-            start = int(start_token.value)
-
-        if not stop_token.value:
-            stop: Optional[int] = None
-        else:
-            stop = int(stop_token.value)
-
-        if not step_token.value:
-            step: Optional[int] = None
-        else:
-            step = int(step_token.value)
+        start = self._slice_index(start_token)
+        stop = self._slice_index(stop_token)
+        step = self._slice_index(step_token)
 
         return SliceSelector(
             env=self.env,
@@ -376,6 +365,17 @@ class Parser:
             stop=stop,
             step=step,
         )
+
+    def _slice_index(self, token: Token) -> Optional[int]:
+        if not token.value:
+            return None
+        try:
+            return int(token.value)
+        except ValueError as err:
+            # A lone "-", for example.
+            raise JSONPathSyntaxError(
+                f"invalid slice index {token.value!r}", token=token
+            ) from err
 
     def parse_selector_list(self, stream: TokenStream) -> ListSelector:  # noqa: PLR0912
         """Parse a comma separated list JSONPath selectors from a stream of tokens."""
@@ -400,11 +400,19 @@ class Parser:
                     raise JSONPathSyntaxError(
                         "leading zero in index selector", token=stream.current
                     )
+                try:
+                    index = int(stream.current.value)
+                except ValueError as err:
+                    # An integer with an exponent, like 1e2, is not an index.
+                    raise JSONPathSyntaxError(
+                        f"invalid index selector {stream.current.value!r}",
+                        token=stream.current,
+                    ) from err
                 list_items.append(
                     IndexSelector(
                         env=self.env,
                         token=stream.current,
-                        index=int(stream.current.value),
+                        index=index,
                     )
                 )
             elif stream.current.kind == TOKEN_BARE_PROPERTY:
